@@ -86,10 +86,21 @@ impl LookupTables {
             max_fallback_level,
             literal,
             command,
-            compadd: _,
+            compadd: completion_compadd,
         } = completion_transitions;
 
         hasher.write_usize(*max_fallback_level);
+
+        if let Some(compadd) = completion_compadd {
+            for level in compadd {
+                for (from, cmd_ids) in level {
+                    hasher.write_u32(*from);
+                    for id in cmd_ids {
+                        hasher.write_usize(*id);
+                    }
+                }
+            }
+        }
 
         for level in literal {
             for (from, lit_ids) in level {
@@ -162,14 +173,14 @@ impl LookupTables {
             max_fallback_level: left_max_fallback_level,
             literal: left_literal,
             command: left_command,
-            compadd: _,
+            compadd: left_completion_compadd,
         } = left_completion_transitions;
 
         let CompletionTransitions {
             max_fallback_level: right_max_fallback_level,
             literal: right_literal,
             command: right_command,
-            compadd: _,
+            compadd: right_completion_compadd,
         } = right_completion_transitions;
 
         if left_max_fallback_level != right_max_fallback_level {
@@ -181,6 +192,10 @@ impl LookupTables {
         }
 
         if left_command != right_command {
+            return false;
+        }
+
+        if left_completion_compadd != right_completion_compadd {
             return false;
         }
 
